@@ -1014,3 +1014,48 @@ func VH_C15_drawpath_dashes_two_Q() {
 		vAssert("C15.dashes.two.each_path_its_own_decision", ok)
 	}
 }
+
+// H3f the immediate-mode helpers Fill / Stroke / FillStroke: the current path is drawn once with
+// only the requested paints, the style of the context is as before, and the current path starts
+// anew.
+func VH_C15_fill_stroke_helpers_Q() {
+	rec := &vhC15Rec{w: 100, h: 100}
+	c := NewContext(rec)
+	x, y := vhReal(), vhReal()
+	vAssume(x >= 0.01 || x <= -0.01 || y >= 0.01 || y <= -0.01)
+	vAssume(5*x-3*y >= 0.1 || 5*x-3*y <= -0.1) // the two lines are not collinear (they would be merged)
+	c.SetFillColor(Red)
+	c.SetStrokeColor(Blue)
+	c.SetStrokeWidth(2)
+	c.MoveTo(0, 0)
+	c.LineTo(x, y)
+	c.LineTo(x+3, y+5)
+	c.Close()
+	s0 := vhC15Snapshot(c)
+	which := vChoose(0, 2)
+	switch which {
+	case 0:
+		c.Fill()
+	case 1:
+		c.Stroke()
+	default:
+		c.FillStroke()
+	}
+	vAssert("C15.helpers.state_unchanged", vhC15Compare(c, s0).all())
+	vAssert("C15.helpers.one_draw", len(rec.calls) == 1 && rec.calls[0].kind == 0)
+	if len(rec.calls) != 1 {
+		return
+	}
+	st := rec.calls[0].style
+	vAssert("C15.helpers.paints", st.HasFill() == (which != 1) && st.HasStroke() == (which != 0) &&
+		(!st.HasFill() || st.Fill.Color == Red) && (!st.HasStroke() || (st.Stroke.Color == Blue && st.StrokeWidth == 2)))
+	subs, ok := vhDecode(rec.calls[0].data)
+	vAssert("C15.helpers.path_drawn", ok && len(subs) == 1 && subs[0].closed && len(subs[0].segs) == 3)
+	// the current path starts anew: what a further helper call draws is empty
+	c.FillStroke()
+	empty := true
+	for _, call := range rec.calls[1:] {
+		empty = empty && len(call.data) == 0
+	}
+	vAssert("C15.helpers.path_reset", empty)
+}
